@@ -47,7 +47,7 @@ pub enum Op {
     OtherFormat { ac: u8, df: u8, fill: u64 },
     /// let `half_s` x 0.5 s pass for every tracked aircraft
     Advance { half_s: u16 },
-    Prune { t: u16 },
+    Prune { t: u64 },
 }
 
 #[derive(Clone, Debug, PartialEq)]
@@ -105,7 +105,7 @@ fn op_s(nac: u8, with_time: bool) -> BoxedStrategy<Op> {
             16 => sq,
             2 => other,
             2 => (1u16..12).prop_map(|half_s| Op::Advance { half_s }),
-            1 => (0u16..5).prop_map(|t| Op::Prune { t }),
+            1 => prop_oneof![8 => 0u64..5, 1 => prop_oneof![Just(u64::MAX), Just(1u64 << 63), Just(i64::MAX as u64), Just(1u64 << 40), Just(u32::MAX as u64 + 1)]].prop_map(|t| Op::Prune { t }),
         ]
         .boxed()
     } else {
@@ -453,8 +453,8 @@ pub fn run_history(s: &Scenario, only: Option<u8>, trace: bool) -> RunOut {
             }
             Op::Prune { t } => {
                 let before = dump(&planes);
-                planes.prune(*t as u64);
-                let keep: Vec<u32> = model.recs.iter().filter(|(_, r)| r.age_half_s < 2 * *t as u64).map(|(k, _)| *k).collect();
+                planes.prune(*t);
+                let keep: Vec<u32> = model.recs.iter().filter(|(_, r)| (r.age_half_s as u128) < 2 * *t as u128).map(|(k, _)| *k).collect();
                 let n_before = model.recs.len();
                 model.recs.retain(|k, _| keep.contains(k));
                 if !keep.is_empty() && keep.len() < n_before {
@@ -538,6 +538,9 @@ fn step_model(model: &mut Model, b: &Built, added: Added, planes: &Airplanes, rx
     }
     if !was_tracked && ever.contains(&b.addr) {
         out.readds += 1;
+        if added != Added::Yes {
+            fails.push(("C15/readd_not_reported".into(), format!("{key} had been removed by expiry and is heard again, but the frame is reported added={added:?}")));
+        }
     }
     ever.insert(b.addr);
     let rec = model.recs.entry(b.addr).or_default();
@@ -652,8 +655,10 @@ fn step_model(model: &mut Model, b: &Built, added: Added, planes: &Airplanes, rx
                             if c.kilo_distance.is_some() {
                                 fails.push(("C14/distance_without_position".into(), format!("{key}: kilo_distance {:?} although no position is published", c.kilo_distance)));
                             }
+                            // the position shown until now is superseded by "no position": it was
+                            // published before, so it belongs to the track (only a *clear* wipes)
                             if let Some(old) = rec.position.take() {
-                                rec.history.push((old, false));
+                                rec.history.push((old, true));
                             }
                             // whether the stored reports are kept is left open: follow the implementation
                             resync_slots(rec, c);
@@ -891,7 +896,7 @@ fn op_from(v: &Value) -> Option<Op> {
     if let Some(h) = v.get("advance_half_s") {
         return Some(Op::Advance { half_s: u(h) as u16 });
     }
-    v.get("prune").map(|t| Op::Prune { t: u(t) as u16 })
+    v.get("prune").map(|t| Op::Prune { t: u(t) })
 }
 
 fn scenario_from(v: &Value) -> Option<Scenario> {
